@@ -224,6 +224,33 @@ Definition targets (i : Z) (e : elem) : list Z :=
   | _ => [i + 1]
   end.
 
+(* ---- the closedness predicate (C12, Colang 1.0) ----
+   element e at index i of a flow of `len` elements: every offset field that is present lands in
+   [0, len] (an absolute jump: in [-1, len]; -1 is `return`, which slide treats as "finished"),
+   every branch head indexes an existing element, the offset slide() reads unconditionally is
+   present, no unresolved label/goto is left, and `_absolute` is set on jumps only (slide()
+   honours it only there). *)
+Definition shape_ok (e : elem) : Prop :=
+  (e_abs e = true -> e_type e = TJump) /\
+  match e_type e with
+  | TIf => e_else e <> None
+  | TWhile => e_brk e <> None
+  | TJump => e_next e <> None
+  | TLabel _ | TGoto _ => False
+  | _ => True
+  end.
+
+Definition in_range (len i : Z) (e : elem) : Prop :=
+  (forall n, e_next e = Some n -> if e_abs e then -1 <= n <= len else 0 <= i + n <= len) /\
+  (forall n, e_else e = Some n -> 0 <= i + n <= len) /\
+  (forall n, e_brk e = Some n -> 0 <= i + n <= len) /\
+  (forall n, e_cont e = Some n -> 0 <= i + n <= len) /\
+  (forall h, In h (e_heads e) -> 0 <= i + h < len) /\
+  shape_ok e.
+
+Definition closed_v1 (es : list elem) : Prop :=
+  forall i e, nth_error es i = Some e -> in_range (zlen es) (Z.of_nat i) e.
+
 (* ---- sanity ---- *)
 Open Scope string_scope.
 Example ex_if_else :
